@@ -1,6 +1,7 @@
-//! C15: the shipped in-memory key stores against spec/KeyStore.tla (sequential) and spec/KeyIdStore.tla (races).
+//! C15: the shipped key stores against spec/KeyStore.tla (sequential) and spec/KeyIdStore.tla (races).
+//! Generic over the backend: the in-memory stores (crate `vh`) and StrongholdStorage (crate `vh_sh`, thorough tier).
 use crate::util::*;
-use futures::executor::block_on;
+use identity_storage::JwkStorageBbsPlusExt;
 use identity_eddsa_verifier::EdDSAJwsVerifier;
 use identity_storage::JwkMemStore;
 use identity_storage::JwkStorage;
@@ -9,7 +10,6 @@ use identity_storage::KeyIdMemstore;
 use identity_storage::KeyIdStorage;
 use identity_storage::KeyType;
 use identity_storage::MethodDigest;
-use identity_verification::jose::jwk::EdCurve;
 use identity_verification::jose::jwk::Jwk;
 use identity_verification::jose::jwk::JwkParamsEc;
 use identity_verification::jose::jwk::JwkParamsOkp;
@@ -32,9 +32,30 @@ struct Slot {
   bls: bool,
 }
 
-struct Live {
-  store: JwkMemStore,
-  kids: KeyIdMemstore,
+/// A shipped pair of stores under test.
+pub trait Backend: 'static {
+  type K: JwkStorage + JwkStorageBbsPlusExt;
+  type I: KeyIdStorage + Send + Sync + 'static;
+  fn make() -> (Self::K, Self::I);
+  fn block_on<F: std::future::Future>(f: F) -> F::Output;
+}
+
+/// JwkMemStore + KeyIdMemstore
+pub struct Mem;
+impl Backend for Mem {
+  type K = JwkMemStore;
+  type I = KeyIdMemstore;
+  fn make() -> (JwkMemStore, KeyIdMemstore) {
+    (JwkMemStore::new(), KeyIdMemstore::new())
+  }
+  fn block_on<F: std::future::Future>(f: F) -> F::Output {
+    futures::executor::block_on(f)
+  }
+}
+
+struct Live<B: Backend> {
+  store: B::K,
+  kids: B::I,
   slots: Vec<Slot>, // slot k is slots[k-1]
 }
 
@@ -112,9 +133,10 @@ fn jwk_of_class(class: &str) -> Jwk {
   jwk_variants(class).remove(0)
 }
 
-impl Live {
+impl<B: Backend> Live<B> {
   fn new() -> Self {
-    Live { store: JwkMemStore::new(), kids: KeyIdMemstore::new(), slots: Vec::new() }
+    let (store, kids) = B::make();
+    Live { store, kids, slots: Vec::new() }
   }
   fn key_id(&self, slot: i64) -> KeyId {
     if slot == 0 {
@@ -128,14 +150,14 @@ impl Live {
     let mut live = Vec::new();
     let mut dead = Vec::new();
     for (k, sl) in self.slots.iter().enumerate() {
-      if block_on(self.store.exists(&sl.id)).unwrap_or(false) {
+      if B::block_on(self.store.exists(&sl.id)).unwrap_or(false) {
         live.push(k + 1);
       } else {
         dead.push(k + 1);
       }
     }
     let kidmap: Vec<i64> = (1..=ndigests)
-      .map(|d| match block_on(self.kids.get_key_id(&digest(d))) {
+      .map(|d| match B::block_on(self.kids.get_key_id(&digest(d))) {
         Ok(k) => (1..=9).find(|v| kid_val(*v) == k).unwrap_or(99),
         Err(_) => 0,
       })
@@ -156,7 +178,7 @@ impl Live {
       _ => JwsAlgorithm::HS256,
     };
     match s(&op["name"]) {
-      "generate" => match block_on(self.store.generate(key_type(s(&op["kt"])), alg(s(&op["alg"])))) {
+      "generate" => match B::block_on(self.store.generate(key_type(s(&op["kt"])), alg(s(&op["alg"])))) {
         Err(_) => Ok(json!({"ok": false})),
         Ok(out) => {
           // fresh id, public-only JWK, kid = RFC 7638 thumbprint, alg as requested
@@ -178,7 +200,6 @@ impl Live {
         }
       },
       "generate_bbs" => {
-        use identity_storage::JwkStorageBbsPlusExt;
         use jsonprooftoken::jpa::algs::ProofAlgorithm;
         let kt = key_type(s(&op["kt"]));
         let alg = match s(&op["alg"]) {
@@ -186,7 +207,7 @@ impl Live {
           "BLS12381_SHAKE256" => ProofAlgorithm::BLS12381_SHAKE256,
           _ => ProofAlgorithm::SU_ES256,
         };
-        match block_on(self.store.generate_bbs(kt, alg)) {
+        match B::block_on(self.store.generate_bbs(kt, alg)) {
           Err(_) => Ok(json!({"ok": false})),
           Ok(out) => {
             if self.slots.iter().any(|sl| sl.id == out.key_id) {
@@ -205,7 +226,7 @@ impl Live {
         let many = variants.len() > 1;
         let mut outcome = json!({"ok": false});
         for jwk in variants {
-          match block_on(self.store.insert(jwk.clone())) {
+          match B::block_on(self.store.insert(jwk.clone())) {
             Err(_) => {}
             Ok(id) => {
               if self.slots.iter().any(|sl| sl.id == id) {
@@ -234,7 +255,7 @@ impl Live {
           .slots
           .iter()
           .enumerate()
-          .find(|(k, sl)| (*k as i64 + 1) != slot && !sl.bls && block_on(self.store.exists(&sl.id)).unwrap_or(false))
+          .find(|(k, sl)| (*k as i64 + 1) != slot && !sl.bls && B::block_on(self.store.exists(&sl.id)).unwrap_or(false))
           .map(|(_, sl)| sl.public.clone());
         let public = match s(&op["pub"]) {
           "own" => own.clone().or(other.clone()).unwrap_or_else(|| jwk_of_class("public_only")),
@@ -264,7 +285,7 @@ impl Live {
               } else {
                 j.set_alg(v.alg().unwrap_or_default().to_string());
               }
-              if block_on(self.store.sign(&id, data, &j)).is_ok() {
+              if B::block_on(self.store.sign(&id, data, &j)).is_ok() {
                 return Ok(json!({"ok": true, "accepted_public_jwk": serde_json::to_value(&j).unwrap_or_default()}));
               }
             }
@@ -273,7 +294,7 @@ impl Live {
           o => tool_error(&format!("bad pub class {o}")),
         };
         let data = b"signing input of the harness";
-        match block_on(self.store.sign(&id, data, &public)) {
+        match B::block_on(self.store.sign(&id, data, &public)) {
           Err(_) => Ok(json!({"ok": false})),
           Ok(sig) => {
             // verifies under that key's public JWK and under no other stored key
@@ -296,25 +317,25 @@ impl Live {
           }
         }
       }
-      "delete" => Ok(json!({"ok": block_on(self.store.delete(&self.key_id(i(&op["slot"])))).is_ok()})),
-      "exists" => match block_on(self.store.exists(&self.key_id(i(&op["slot"])))) {
+      "delete" => Ok(json!({"ok": B::block_on(self.store.delete(&self.key_id(i(&op["slot"])))).is_ok()})),
+      "exists" => match B::block_on(self.store.exists(&self.key_id(i(&op["slot"])))) {
         Ok(v) => Ok(json!({"ok": true, "v": v})),
         Err(_) => Ok(json!({"ok": false})),
       },
-      "insert_key_id" => Ok(json!({"ok": block_on(self.kids.insert_key_id(digest(i(&op["d"])), kid_val(i(&op["kid"])))).is_ok()})),
-      "get_key_id" => match block_on(self.kids.get_key_id(&digest(i(&op["d"])))) {
+      "insert_key_id" => Ok(json!({"ok": B::block_on(self.kids.insert_key_id(digest(i(&op["d"])), kid_val(i(&op["kid"])))).is_ok()})),
+      "get_key_id" => match B::block_on(self.kids.get_key_id(&digest(i(&op["d"])))) {
         Ok(k) => Ok(json!({"ok": true, "kid": (1..=9).find(|v| kid_val(*v) == k).unwrap_or(99)})),
         Err(_) => Ok(json!({"ok": false})),
       },
-      "delete_key_id" => Ok(json!({"ok": block_on(self.kids.delete_key_id(&digest(i(&op["d"])))).is_ok()})),
+      "delete_key_id" => Ok(json!({"ok": B::block_on(self.kids.delete_key_id(&digest(i(&op["d"])))).is_ok()})),
       o => tool_error(&format!("unknown key store op {o}")),
     }
   }
 }
 
 /// Rebuilds the abstract pre-state on fresh stores: slots are created in order, dead ones deleted afterwards.
-fn build(pre: &Value) -> Result<Live, String> {
-  let mut l = Live::new();
+fn build<B: Backend>(pre: &Value) -> Result<Live<B>, String> {
+  let mut l = Live::<B>::new();
   let live: Vec<i64> = arr(&pre["live"]).iter().map(i).collect();
   let dead: Vec<i64> = arr(&pre["dead"]).iter().map(i).collect();
   let n = live.len() + dead.len();
@@ -340,17 +361,17 @@ fn build(pre: &Value) -> Result<Live, String> {
     }
   }
   for k in dead {
-    block_on(l.store.delete(&l.key_id(k))).map_err(|e| e.to_string())?;
+    B::block_on(l.store.delete(&l.key_id(k))).map_err(|e| e.to_string())?;
   }
   for (d, v) in arr(&pre["kidmap"]).iter().enumerate() {
     if i(v) != 0 {
-      block_on(l.kids.insert_key_id(digest(d as i64 + 1), kid_val(i(v)))).map_err(|e| e.to_string())?;
+      B::block_on(l.kids.insert_key_id(digest(d as i64 + 1), kid_val(i(v)))).map_err(|e| e.to_string())?;
     }
   }
   Ok(l)
 }
 
-fn replay_chunk(cases: &[Value], rep: &mut Report) {
+fn replay_chunk<B: Backend>(cases: &[Value], rep: &mut Report) {
   for case in cases {
     note_case(case);
     rep.eval();
@@ -358,7 +379,7 @@ fn replay_chunk(cases: &[Value], rep: &mut Report) {
     let name = s(&op["name"]).to_string();
     let nd = arr(&case["pre"]["kidmap"]).len() as i64;
     let out = guarded(|| {
-      let mut l = build(&case["pre"])?;
+      let mut l = build::<B>(&case["pre"])?;
       if l.project(nd) != case["pre"] {
         return Err(format!("harness pre-state {} differs", l.project(nd)));
       }
@@ -385,16 +406,22 @@ fn replay_chunk(cases: &[Value], rep: &mut Report) {
 }
 
 pub fn replay(cases: &[Value], rep: &mut Report) {
-  par_replay(cases, rep, replay_chunk);
+  par_replay(cases, rep, replay_chunk::<Mem>);
+}
+pub fn replay_on<B: Backend>(cases: &[Value], rep: &mut Report) {
+  par_replay(cases, rep, replay_chunk::<B>);
 }
 
 /// Direction V (sequential): one live store, long random history.
 pub fn record_seq(seed: u64, n: u64, out: &mut TraceOut) {
+  record_seq_on::<Mem>(seed, n, out)
+}
+pub fn record_seq_on<B: Backend>(seed: u64, n: u64, out: &mut TraceOut) {
   let mut r = rng(seed);
   let mut left = n;
   let nd = 4i64;
   while left > 0 {
-    let mut l = Live::new();
+    let mut l = Live::<B>::new();
     out.event(json!({"op": {"name": "reset"}, "res": {"ok": true}, "post": l.project(nd)}));
     let seg = left.min(r.gen_range(80..250));
     left -= seg;
@@ -417,7 +444,7 @@ pub fn record_seq(seed: u64, n: u64, out: &mut TraceOut) {
           json!({"name": "insert", "jwk": class})
         }
         25..=49 => {
-          let live_other = l.slots.iter().enumerate().any(|(k, sl)| (k as i64 + 1) != slot && !sl.bls && block_on(l.store.exists(&sl.id)).unwrap_or(false));
+          let live_other = l.slots.iter().enumerate().any(|(k, sl)| (k as i64 + 1) != slot && !sl.bls && B::block_on(l.store.exists(&sl.id)).unwrap_or(false));
           let pubs: &[&str] = if live_other { &["own", "other", "no_alg", "wrong_alg", "unknown_alg", "wrong_crv", "wrong_kty"] } else { &["own", "no_alg", "wrong_alg", "unknown_alg", "wrong_crv", "wrong_kty"] };
           json!({"name": "sign", "slot": slot, "pub": pubs[r.gen_range(0..pubs.len())]})
         }
@@ -440,16 +467,19 @@ pub fn record_seq(seed: u64, n: u64, out: &mut TraceOut) {
 /// Direction V (schedules): real threads race on one KeyIdMemstore; call/return events are stamped by one atomic
 /// counter; linearizability is decided by TLC (KeyIdStoreTrace).
 pub fn record_race(seed: u64, n: u64, out: &mut TraceOut) {
+  record_race_on::<Mem>(seed, n, out)
+}
+pub fn record_race_on<B: Backend>(seed: u64, n: u64, out: &mut TraceOut) {
   let mut r = rng(seed);
   for round in 0..n {
     let threads: usize = [2, 3, 4, 8, 16][r.gen_range(0..5)].min(2 + (round as usize % 15));
-    let store = Arc::new(KeyIdMemstore::new());
+    let store = Arc::new(B::make().1);
     let clock = Arc::new(AtomicU64::new(1));
     let barrier = Arc::new(Barrier::new(threads));
     // optionally a mapping exists before the race
     let pre = r.gen_bool(0.25);
     if pre {
-      block_on(store.insert_key_id(digest(1), kid_val(9))).unwrap();
+      B::block_on(store.insert_key_id(digest(1), kid_val(9))).unwrap();
     }
     // plan: every thread performs 1..3 operations on digest 1 (mostly inserts of its own key id)
     let plans: Vec<Vec<(String, i64)>> = (0..threads)
@@ -481,9 +511,9 @@ pub fn record_race(seed: u64, n: u64, out: &mut TraceOut) {
           let c = clock.fetch_add(1, Ordering::SeqCst);
           evs.push((c, json!({"ev": "call", "t": t + 1, "name": name, "kid": arg})));
           let res = match name.as_str() {
-            "insert_key_id" => json!({"ok": block_on(store.insert_key_id(digest(1), kid_val(arg))).is_ok()}),
-            "delete_key_id" => json!({"ok": block_on(store.delete_key_id(&digest(1))).is_ok()}),
-            _ => match block_on(store.get_key_id(&digest(1))) {
+            "insert_key_id" => json!({"ok": B::block_on(store.insert_key_id(digest(1), kid_val(arg))).is_ok()}),
+            "delete_key_id" => json!({"ok": B::block_on(store.delete_key_id(&digest(1))).is_ok()}),
+            _ => match B::block_on(store.get_key_id(&digest(1))) {
               Ok(k) => json!({"ok": true, "kid": (1..=99).find(|v| kid_val(*v) == k).unwrap_or(0)}),
               Err(_) => json!({"ok": false}),
             },
@@ -507,7 +537,7 @@ pub fn record_race(seed: u64, n: u64, out: &mut TraceOut) {
       }
     }
     all.sort_by_key(|(c, _)| *c);
-    let fin = match block_on(store.get_key_id(&digest(1))) {
+    let fin = match B::block_on(store.get_key_id(&digest(1))) {
       Ok(k) => (1..=99).find(|v| kid_val(*v) == k).unwrap_or(0),
       Err(_) => 0,
     };
